@@ -13,6 +13,8 @@ set_option linter.unusedSectionVars false
 
 variable {κ β σ α : Type} [DecidableEq κ] [DecidableEq β] [DecidableEq σ] [DecidableEq α]
 
+namespace AL
+
 /-! ### association lists -/
 
 theorem alookup_ainsert (k x : κ) (v : β) (d : List (κ × β)) :
@@ -164,6 +166,10 @@ theorem mapM_ok {γ δ : Type} (f : γ → Res δ) (g : γ → δ) (l : List γ)
   | cons x t ih =>
     rw [List.mapM_cons, h x (by simp), ih (fun y hy => h y (List.mem_cons_of_mem _ hy))]
     rfl
+
+end AL
+
+open AL
 
 /-! ### reading a table after an update -/
 
